@@ -37,12 +37,58 @@ fn echo(req: &Request) -> std::pin::Pin<Box<dyn std::future::Future<Output = Str
     Box::pin(async move { s })
 }
 
-fn app() -> TestingOhkami {
+fn ohkami() -> Ohkami {
     Ohkami::new((CtxFang,
         "/".GET(echo).POST(echo).PUT(echo).PATCH(echo).DELETE(echo),
         "/:a".GET(echo).POST(echo).PUT(echo).PATCH(echo).DELETE(echo),
         "/:a/:b".GET(echo).POST(echo).PUT(echo).PATCH(echo).DELETE(echo),
-    )).test()
+    ))
+}
+fn app() -> TestingOhkami { ohkami().test() }
+
+/// the REAL session loop (`Session::manage`, hook H6) on a loopback TCP connection: each script element is written, then everything the server
+/// answers within a quiet window is collected; returns all bytes the server wrote, and whether it closed
+fn real_session(script: Vec<Vec<u8>>, eof: bool) -> Value {
+    use tokio::io::{AsyncReadExt, AsyncWriteExt};
+    use std::time::Duration;
+    let rt = rt();
+    let local = tokio::task::LocalSet::new();
+    local.block_on(&rt, async move {
+        let listener = tokio::net::TcpListener::bind("127.0.0.1:0").await.expect("harness: bind");
+        let addr = listener.local_addr().unwrap();
+        let mut client = tokio::net::TcpStream::connect(addr).await.expect("harness: connect");
+        client.set_nodelay(true).ok();
+        let (server, _) = listener.accept().await.expect("harness: accept");
+        server.set_nodelay(true).ok();
+        let task = tokio::task::spawn_local(ohkami().__verif_session(server));
+        let mut all: Vec<u8> = Vec::new();
+        let mut buf = vec![0u8; 65536];
+        let mut closed = false;
+        'outer: for chunk in script {
+            if client.write_all(&chunk).await.is_err() { closed = true; break }
+            let _ = client.flush().await;
+            // wait generously for the first byte of the answer (a loaded machine must not make two requests meet in one read), then until quiet
+            let mut window = 60;
+            loop {
+                match tokio::time::timeout(Duration::from_millis(window), client.read(&mut buf)).await {
+                    Ok(Ok(0)) | Ok(Err(_)) => { closed = true; break 'outer }
+                    Ok(Ok(n)) => { all.extend_from_slice(&buf[..n]); window = 3 }
+                    Err(_) => break,
+                }
+            }
+        }
+        if eof && !closed {
+            let _ = client.shutdown().await;
+            loop {
+                match tokio::time::timeout(Duration::from_millis(200), client.read(&mut buf)).await {
+                    Ok(Ok(0)) | Ok(Err(_)) | Err(_) => break,
+                    Ok(Ok(n)) => all.extend_from_slice(&buf[..n]),
+                }
+            }
+        }
+        task.abort();
+        json!({"all": hex(&all), "closed_by_server": closed})
+    })
 }
 
 fn session(t: &TestingOhkami, script: Vec<Vec<u8>>, eof: bool) -> Value {
@@ -85,6 +131,10 @@ pub fn run_case(c: &Value) -> Value {
     // C05: each request alone on a fresh connection
     if c["fresh"].as_bool() == Some(true) {
         out["fresh"] = Value::Array(script.iter().map(|r| guarded(&t, vec![r.clone()], true)).collect());
+    }
+    // the same script through the real session loop over loopback TCP (hook H6)
+    if c["real"].as_bool() == Some(true) {
+        out["real"] = match std::panic::catch_unwind(std::panic::AssertUnwindSafe(|| real_session(script.clone(), eof))) { Ok(v) => v, Err(e) => json!({"panic": panic_msg(e)}) };
     }
     // C06: the same byte stream in its canonical segmentation (one read per request, given by the case)
     if let Some(canon) = c.get("canon").and_then(Value::as_array) {
